@@ -223,7 +223,7 @@ def matrix_cases(rng, n_grids):
         if not any(ext):
             ext = [1, 0, 0]
         sc = rng.choice([1e-3, 1.0, 1.0, 2.5, 1e3])
-        img = {"k": "I", "ext": ext, "origin": [rng.choice([0.0, 1.0, -3.0, 7.0]) * sc for _ in range(3)],
+        img = {"k": "I", "ext": ext, "origin": [rng.choice([0.0, 1.0, -3.0, 7.0]) * sc * (d < 2 or ext[2] > 0 or gi % 2) for d in range(3)],
                "spacing": [sc * rng.choice([1.0, 0.5, -0.25, 3.0]) for _ in range(3)],
                "basis": rng.choice([None, copy.deepcopy(c16io_identity())])}
         maxc = max(max(abs(img["origin"][d]), abs(img["origin"][d] + img["spacing"][d] * ext[d])) for d in range(3)) or 1.0
@@ -254,6 +254,29 @@ def matrix_cases(rng, n_grids):
             sa = copy.deepcopy(first[x])
             tags = [f"matrix-{x}~{y}", "matrix-" + variant, "matrix-flat" + str(len(flat)), "protocol-" + str(proto or "ab-ba")]
             out.append((sa, sb, tags, proto))
+        if ext[2] == 0 and img["origin"][2] == 0.0:
+            # mixed space dimension: the same lattice (in the plane z = 0) stored with TWO coordinate columns, against every
+            # representation (three columns) and against itself
+            def two_col(reprs):
+                s2 = copy.deepcopy(reprs["S"])
+                s2["dim"], s2["points"] = 2, [p[:2] for p in s2["points"]]
+                e2 = copy.deepcopy(reprs["E"])
+                e2["lm"]["dim"], e2["lm"]["points"] = 2, [p[:2] for p in e2["lm"]["points"]]
+                return {"S2": s2, "E2": e2, "PE2": {"k": "P", "lm": copy.deepcopy(e2["lm"])}}
+            t1 = two_col(first)
+            if "shift-meshed-f1000" not in variants:
+                i2 = copy.deepcopy(img)
+                i2["origin"][rng.choice(meshed)] += 1000.0 * maxc * 1e-8
+                variants["shift-meshed-f1000"] = _grid_reprs(i2)
+            t2 = two_col(variants["shift-meshed-f1000"])
+            for x in ("S2", "E2", "PE2"):
+                partners = [(y, first[y], "same") for y in REPRS] + [(y, t1[y], "same") for y in t1] + \
+                           [(y, t2[y], "shift-meshed-f1000") for y in t2]
+                for y, spec_y, variant in partners:
+                    proto = PROTOCOLS[k % len(PROTOCOLS)]
+                    k += 1
+                    out.append((copy.deepcopy(t1[x]), copy.deepcopy(spec_y),
+                                [f"matrix-{x}~{y}", "matrix-" + variant, "matrix-two-columns", "protocol-" + str(proto or "ab-ba")], proto))
     return out
 
 
